@@ -323,7 +323,7 @@ theorem identityStableB_sound {c c' : Cell} (h : identityStableB c c' = true) : 
     non-trivial store with the record moved to server 2 carrying the new expiry. -/
 example : Agree Ex.downCell (Ex.storeOn 1) ∧
     (∃ m' ws, reschedule ⟨Ex.downCell, Ex.storeOn 1⟩ [10] Ex.q10 [] = .ok (m', ws) ∧
-      IdentityStable Ex.downCell m'.cell ∧ m'.store.recs = [⟨2, 10, none, none, some 105, 5000⟩]) := by
+      IdentityStable Ex.downCell m'.cell ∧ m'.store.recs = [⟨2, 10, none, none, some 105, 5500⟩]) := by
   refine ⟨⟨agreeWhere_of_B (by decide +kernel) (by decide +kernel), agreeWhatB_iff.mp (by decide +kernel)⟩, ?_⟩
   exact ⟨(getOk (reschedule ⟨Ex.downCell, Ex.storeOn 1⟩ [10] Ex.q10 [])).1,
          (getOk (reschedule ⟨Ex.downCell, Ex.storeOn 1⟩ [10] Ex.q10 [])).2, eq_ok_pair (by decide +kernel),
